@@ -15,7 +15,7 @@ CLAIMS = {
          "Every plain fragment that can reach an attribute value is attribute-escaped exactly once (by the writer for plain values, at the merge site for values merged into HTML()); the value normalisation table and the seven-character escape map are derived from the source and checked."),
  "C04": ("escape typestate (trusted fragments never escaped) + abstract interpretation of HTML.__add__/__radd__ over operand kinds", "4/C04",
          "HTML() children/attribute values, _repr_html_ output and script/style text are emitted unescaped on every path; HTML concatenation always yields HTML() with trusted operands verbatim and plain operands text-escaped once in operand order; no path escapes trusted or already-escaped content."),
- "C05": ("extracted sibling transducer + element frame (Engine A); product walk over reachable layout states checking no layout token between non-block neighbours", "4/C05-C07",
+ "C05": ("extracted sibling transducer + element frame (Engine A); product walk over reachable layout states checking no layout token between non-block neighbours; ownership/effect analysis: no read-only operation writes Tag.add_ws of a pre-existing tag, rebuilt tags keep the flag", "4/C05-C07",
          "For every reachable layout state, a non-block child next to a non-block sibling emits no EOL/INDENT and is rendered flat; inline frames contain no layout token; every layout token is adjacent to a block boundary. Induction over the subtree gives the property for all trees incl. block-in-inline."),
  "C06": ("extracted sibling transducer + element frame compared with a specification renderer by product construction over all reachable (impl state, spec state) pairs", "4/C05-C07",
          "The extracted transducer and frames equal the specification written from the documented rule on every reachable state pair and every frame scenario, which by induction fixes the layout of every validly nested tree, every indent and eol."),
@@ -31,7 +31,7 @@ CLAIMS = {
          "Names: one trailing underscore stripped then underscores to hyphens; values: None/False dropped, True empty, numbers as text; repeated names joined existing+' '+new in argument order into a per-call dict that is written once (so later updates replace); Tag.__init__ and consolidate_attrs split arguments by the same predicate."),
  "C16": ("abstract interpretation of add_class/remove_class/has_class/add_style (effect traces with TagAttrDict opaque) and of css()'s loop body; key pipeline evaluated on sample property names", "4/C16",
          "Structural part only: helpers return self; add_style's semicolon test is on every accepting path and precedes the write; (new, old) order iff prepend; has_class is membership in split(); remove_class filters split() tokens by != and re-joins or pops; css appends one declaration per non-None argument. The token-set algebra over histories is not decided."),
- "C17": ("effect-order analysis (Engine A traces) of Tag.__enter__/__exit__ and dispatch table of the display-hook wrapper", "4/C17",
+ "C17": ("effect-order analysis (Engine A traces) of Tag.__enter__/__exit__ and dispatch table of the display-hook wrapper (both truth values of the saved hook explored; the _repr_html_ test precedes any hand-over of a plain value)", "4/C17",
          "On every path of __exit__ the saved hook is restored before foreign code runs and the tag is handed to it exactly once; __enter__ raises before writing anything when the tag is active and saves the hook before replacing it; wrapper table per value kind. Nesting follows by induction on depth."),
  "C08": ("ownership/effect analysis (mutation sites vs. borrowed objects, per-function summaries to a fix-point, copy semantics read from each class's __copy__) + Engine A tables for tagify, equality coverage and delegation", "4/C08",
          "No read-only entry point has, on any call path, a mutation site whose target existed before the call; tagify returns a new object with new containers and replaces every tagifiable/metadata child; render uses the tagified copy; repr/_repr_html_/str agree; == rejects other kinds and compares every instance field; the transient hook field is reset by __exit__. Value-level equality of copies is not decided."),
@@ -39,9 +39,9 @@ CLAIMS = {
          "Splicing cannot skip or revisit children (descending index, fresh list, or exact advance); a TagList expansion replaces exactly its element; un-tagified objects without _repr_html_ raise and emit nothing on every layout state; document shape decisions and head hoisting operate on tagified content."),
  "C11": ("effect-trace analysis (Engine A, callees opaque) of HTMLDocument.render / _gen_html_tag_tree / _hoist_head_content / as_html_tags against obligations R1-R6", "4/C11",
          "Structural obligations R1-R5 of document assembly hold on every path (doctype, three-case table with both settings forwarded, head search/insert, meta charset first, listing iff non-empty, as_html_tags over the same list in order, meta/link/script/head order); R6 (listed = hoisted = returned) is a recorded known finding. The complete document string is not decided."),
- "C12": ("effect-order analysis of copy_to (verification pass dominates every filesystem change; raise path touches nothing), argument-forwarding checks for save_html/as_dict, case table of source_path_map", "4/C12",
+ "C12": ("effect-order analysis of copy_to (verification pass dominates every filesystem change; raise path touches nothing), argument-forwarding checks for save_html/as_dict, case table of source_path_map; def-use rule on the copy loop (no path computed from a variable the loop rebinds); call-graph closure of the save/copy path free of cache decorators and module-level state", "4/C12",
          "Structural part only: URL and copy path both come from source_path_map with the same settings; quote() with default safe set on the same src/href fields the copier reads; copy_to verifies all listed files before rmtree/mkdir/copy; save_html copies every rendered dependency and returns the path. Byte identity and filesystem faults are runtime matters."),
- "C13": ("extracted sanitiser chain applied to the 448-word '</script' language; regex-AST prefix vs derived open tag; Engine A tables for extraction de-duplication and first-occurrence replace; sibling agreement with HTMLDocument", "4/C13",
+ "C13": ("extracted sanitiser chain applied to the 448-word '</script' language; regex-AST prefix vs derived open tag; Engine A tables for extraction de-duplication and first-occurrence replace; sibling agreement with HTMLDocument; head markup taken with get_html_string; no class-level mutable state", "4/C13",
          "No case variant of '</script' followed by any tokenizer terminator survives the serialiser while JSON-decoding is preserved; writer keys = reader parameters; the extraction pattern matches exactly the rendered open tag lazily to </script>; de-duplication is by membership in all earlier serialisations; the placeholder is replaced once by str.replace with HTMLDocument's listing/markup."),
  "C18": ("nondeterminism-source reachability over the call-graph closure of the construction/render API (hash/id, set iteration, time/random/env, module-level state, memoising decorators, shared mutable defaults and class attributes) + dataflow of head_content's name + purity of read-only operations", "4/C18",
          "No source of run-to-run or history-dependent variation is reachable from the API; head_content names are prefix + hashlib digest of the rendered payload; read-only operations mutate nothing (history independence). Digest injectivity is an axiom."),
